@@ -40,6 +40,9 @@ theorem bytearray_refines_req {B : Type} {c : BACol B} (h : c.BInv) (i j : Nat) 
   · simp only [Col.swap]; rw [BACol.view_swap h]
   · rw [(BACol.page_spec h).2.1]
 
+example : ∃ c : BACol Nat, c.BInv ∧ c.view = [[], [7]] :=
+  ⟨(BACol.empty.write []).write [7], BACol.binv_write (BACol.binv_write BACol.binv_empty _) _, by decide⟩
+
 /-- the repaired test is sound on its own: whenever `byteArraysAreContiguous` answers yes, handing
     out the arrays as they are is right -/
 theorem bytearray_contiguous_page_is_view {B : Type} {c : BACol B} (h : c.BInv)
@@ -48,6 +51,9 @@ theorem bytearray_contiguous_page_is_view {B : Type} {c : BACol B} (h : c.BInv)
   have : c.page = { c with endOff := some c.values.length } := by
     simp [BACol.page, BACol.pageWith, hc]
   exact ⟨this, by rw [this]; exact BACol.pageValues_of_contig h hc⟩
+
+example : ∃ c : BACol Nat, c.BInv ∧ contigFrom 0 c.offsets c.lengths = true :=
+  ⟨(BACol.empty.write []).write [7], BACol.binv_write (BACol.binv_write BACol.binv_empty _) _, by decide⟩
 
 /-- **negation, code as found** (`page()` rewrote the values only when the OFFSETS were out of
     order): write `""`, `"a"`, swap the two rows — the offsets are `[0, 0]` before and after, so no
